@@ -384,8 +384,8 @@ func totalInput(d MD, tn string, idx int) ([]byte, string) {
 	r := rand.New(rand.NewSource(seed ^ 0x1234))
 	t := &totalGen{r: r, g: g, d: d, w: &WireGen{R: r, G: g, Unknown: true, NonMin: true, Muts: map[string]int{}}}
 	if idx%64 == 63 {
-		if b, ok := t.manySmallRecords(); ok {
-			return b, "many-small-records-of-one-field"
+		if b, kind, ok := t.manySmallRecords(idx / 64); ok {
+			return b, "many-small-records-of-one-field(" + kind + ")"
 		}
 	}
 	return t.input(idx % nTotalClasses)
@@ -401,6 +401,14 @@ func totalCase(rep *Report, s *glue.Subject, d MD, idx int, S uint64) {
 		rep.Sample("C06", map[string]string{"type": tn, "class": class, "input_hex": hx(in)})
 	}
 	bound := uint64(len(in))*(S+512) + 1<<20
+	switch class {
+	case "many-small-records-of-one-field(scalar)", "many-small-records-of-one-field(map)":
+		// thousands of minimal records: a linear decoder allocates a small multiple of the input (amortised slice
+		// growth, map buckets, short strings); measured 4..25 bytes per input byte on the unchanged tree
+		bound = 96*uint64(len(in)) + 1<<20
+	case "many-small-records-of-one-field(message)":
+		bound = uint64(len(in))/2*(S+128) + 96*uint64(len(in)) + 1<<20 // one element struct per two-byte record
+	}
 	variant := idx / nTotalClasses % 4
 	m := newOf(s.Zero)
 	var err error
@@ -654,7 +662,7 @@ func engineDepth(rep *Report) {
 // manySmallRecords: thousands of minimal records of one repeated or map field (separate packed runs of one or two
 // elements, single elements, tiny map entries): decoding must stay linear in the input (a decoder that regrows the
 // whole list per record allocates quadratically).
-func (t *totalGen) manySmallRecords() ([]byte, bool) {
+func (t *totalGen) manySmallRecords(turn int) ([]byte, string, bool) {
 	r := t.r
 	var cands []FD
 	fs := t.d.Fields()
@@ -664,9 +672,15 @@ func (t *totalGen) manySmallRecords() ([]byte, bool) {
 		}
 	}
 	if len(cands) == 0 {
-		return nil, false
+		return nil, "", false
 	}
-	fd := cands[r.Intn(len(cands))]
+	fd := cands[turn%len(cands)] // every repeated / map field in turn
+	kind := "scalar"
+	if fd.IsMap() {
+		kind = "map"
+	} else if fd.Kind() == protoreflect.MessageKind || fd.Kind() == protoreflect.GroupKind {
+		kind = "message"
+	}
 	elem := func(k protoreflect.Kind, i int) []byte { // payload of one element, without tag
 		switch wireTypeOfKind(k) {
 		case protowire.VarintType:
@@ -681,7 +695,7 @@ func (t *totalGen) manySmallRecords() ([]byte, bool) {
 		}
 		return []byte{1, byte('a' + i%26)}
 	}
-	n := 2000 + r.Intn(8000)
+	n := 8000 + r.Intn(4000)
 	var b []byte
 	tag2 := protowire.AppendTag(nil, fd.Number(), protowire.BytesType)
 	for i := 0; i < n; i++ {
@@ -703,7 +717,8 @@ func (t *totalGen) manySmallRecords() ([]byte, bool) {
 			}
 			b = protowire.AppendBytes(append(b, tag2...), ent)
 		case wireTypeOfKind(fd.Kind()) != protowire.BytesType:
-			if r.Intn(3) != 0 { // a packed run of one or two elements
+			// first half: nothing but packed runs; second half: packed runs and single elements mixed
+			if i < n/2 || r.Intn(3) != 0 { // a packed run of one or two elements
 				run := elem(fd.Kind(), i)
 				if r.Intn(2) == 0 {
 					run = append(run, elem(fd.Kind(), i+1)...)
@@ -717,5 +732,5 @@ func (t *totalGen) manySmallRecords() ([]byte, bool) {
 			b = append(append(b, tag2...), elem(fd.Kind(), i)...)
 		}
 	}
-	return b, true
+	return b, kind, true
 }
